@@ -366,19 +366,20 @@ def correspondence(ctx):
 # search
 # ----------------------------------------------------------------------------------------------
 def oracle_min(g, a, b, Delta):
-    """min g.s over a <= s <= b, ||s|| <= Delta (a <= 0 <= b): s(t) = clip(-t g, a, b), bisection on t."""
-    f = lambda t: np.clip(-t * g, a, b)
-    if not np.any(g != 0.0):
+    """min g.s over a <= s <= b, ||s|| <= Delta (a <= 0 <= b): the minimiser is s(t) = clip(-t g, a, b) for the largest t with
+    ||s(t)|| <= Delta (t = inf if the whole clipped ray stays in the ball); bisection on t."""
+    nz = g != 0.0
+    if not np.any(nz):
         return 0.0
-    hi = 1.0
-    while np.linalg.norm(f(hi)) < Delta and hi < 1e300:
-        hi *= 4.0
-    if np.linalg.norm(f(hi)) <= Delta:
-        return float(g @ f(hi))
-    lo = 0.0
-    for _ in range(300):
+    s_inf = np.where(g < 0.0, b, np.where(g > 0.0, a, 0.0))        # limit of clip(-t g) as t -> inf
+    if math.sqrt(float(s_inf @ s_inf)) <= Delta:
+        return float(g @ s_inf)
+    f = lambda t: np.clip(-t * g, a, b)
+    lo, hi = 0.0, Delta / float(np.min(np.abs(g[nz])))              # at hi every moving coordinate is clipped or beyond Delta
+    for _ in range(110):
         mid = 0.5 * (lo + hi)
-        if np.linalg.norm(f(mid)) <= Delta:
+        sm = f(mid)
+        if math.sqrt(float(sm @ sm)) <= Delta:
             lo = mid
         else:
             hi = mid
@@ -459,7 +460,7 @@ def fail_once(ctx, sig, what, replay):
 
 def search_convex(ctx):
     from dfols.trust_region import ctrsbox_pgd, ctrsbox_sfista, ctrsbox_geometry
-    ncase = ctx.scale(150, 1500) * getattr(ctx, "boost", 1)
+    ncase = ctx.scale(300, 1500) * getattr(ctx, "boost", 1)
     st = {"pgd": 0, "sfista": 0, "cgeom": 0, "sets": {}, "max_norm_over_Delta": 0.0, "alarms": 0, "raised": {}}
     for i in range(ncase):
         rng = np.random.default_rng([ctx.seed, 1302, i])
@@ -517,7 +518,7 @@ def search_convex(ctx):
 
 
 def search_tr_step(ctx):
-    ncase = ctx.scale(120, 1200) * getattr(ctx, "boost", 1)
+    ncase = ctx.scale(300, 1200) * getattr(ctx, "boost", 1)
     st = {"cases": 0, "zero_step_returned": 0, "positive": 0, "nan_pred_reduction": 0, "alarms": 0, "raised": {}, "min_pred_reduction": 0.0}
     for i in range(ncase):
         rng = np.random.default_rng([ctx.seed, 1303, i])
@@ -562,7 +563,7 @@ def search_tr_step(ctx):
 def search(ctx):
     core.import_dfols()
     from dfols.trust_region import trsbox_geometry
-    ncase = ctx.scale(5000, 60000) * getattr(ctx, "boost", 1)
+    ncase = ctx.scale(6000, 60000) * getattr(ctx, "boost", 1)
     tags = {"n": {}, "kinds": {}, "c_zero": 0}
     seeds = [cfj(mm["input"], GEOM_KEYS) for mm in getattr(ctx, "_c13_mismatch", [])[:20] if "input" in mm]
     for i in range(ncase + len(seeds)):
